@@ -63,6 +63,7 @@ func instrCount(fn *ssa.Function) int {
 func (ex *Exec) call(f *Frame, st *State, x *ssa.Call, b *ssa.BasicBlock, i int, prev *ssa.BasicBlock) bool {
 	w := ex.w
 	c := x.Common()
+	c0 := c
 	if bi, ok := c.Value.(*ssa.Builtin); ok {
 		f.regs[x] = ex.builtin(f, st, x, bi)
 		return false
@@ -105,6 +106,27 @@ func (ex *Exec) call(f *Frame, st *State, x *ssa.Call, b *ssa.BasicBlock, i int,
 	short := name
 	if k := strings.LastIndex(short, "."); k >= 0 {
 		short = short[k+1:]
+	}
+	if f.con != nil && f.depth == 0 {
+		for k, c := range f.con.CallAsserts[fmt.Sprintf("%s#%d", short, ord)] {
+			ec := ex.ectx(f, st)
+			for pn, pb := range ex.paramBindings(callee, sig, c0.IsInvoke(), args) {
+				// the caller's names win (a recursive call has the same parameter names)
+				if _, own := ec.vars[pn]; !own || strings.HasPrefix(pn, "arg") {
+					ec.vars[pn] = pb
+				}
+			}
+			t, err := ec.formula(c.Src)
+			if err != nil {
+				ex.aborted = fmt.Sprintf("contract error (%s): %v", c.Line, err)
+				return false
+			}
+			lbl := c.Label
+			if lbl == "" {
+				lbl = fmt.Sprint(k + 1)
+			}
+			ex.oblige(f, st, "assert", fmt.Sprintf("%s#assert:%s#%d#%s", ex.name, short, ord, lbl), t, x.Pos(), c.Src)
+		}
 	}
 	wantInline := false
 	inlSweep := map[string]bool{}
@@ -292,14 +314,53 @@ func (ex *Exec) applyContract(f *Frame, st *State, x ssa.Instruction, con *Contr
 		vals = append(vals, w.freshReg(st, sig.Results().At(k).Type(), fmt.Sprintf("%s_r%d", short, k), OrigCall))
 	}
 	bindResults(vars, sig, vals)
+	// ghost updates: field(target) := value, value evaluated in the pre-state
+	for _, g := range con.GhostSets {
+		lhs, rhs, ok := strings.Cut(g.Src, ":=")
+		if !ok {
+			ex.aborted = fmt.Sprintf("contract error (%s): ghostset needs :=", g.Line)
+			return vals
+		}
+		lhs = strings.TrimSpace(lhs)
+		op := strings.Index(lhs, "(")
+		if op < 0 || !strings.HasSuffix(lhs, ")") {
+			ex.aborted = fmt.Sprintf("contract error (%s): ghostset target must be field(expr)", g.Line)
+			return vals
+		}
+		field, target := lhs[:op], lhs[op+1:len(lhs)-1]
+		func() {
+			defer func() {
+				if r := recover(); r != nil {
+					if ee, ok := r.(exprErr); ok {
+						if !g.Optional {
+							ex.aborted = fmt.Sprintf("contract error (%s): %s", g.Line, ee.msg)
+						}
+						return
+					}
+					panic(r)
+				}
+			}()
+			ecPost := ex.calleeCtx(f, st, pre, callee, vars)
+			id := ex.w.fold(st, ecPost.evalSrc(target).V)
+			ecPre := ex.calleeCtx(f, pre, pre, callee, vars)
+			val := ecPre.evalSrc(rhs)
+			var vt string
+			if val.C != nil {
+				vt = ex.w.foldInt(constBV(val.C, 64), 64)
+			} else {
+				vt = ex.w.fold(pre, val.V)
+			}
+			ex.w.ghostSet(st, field, id, vt)
+		}()
+		if ex.aborted != "" {
+			return vals
+		}
+	}
 	ec := ex.calleeCtx(f, st, pre, callee, vars)
 	ec.assume = true
 	for _, c := range con.Ensures {
-		src := c.Src
-		optional := strings.HasPrefix(src, "?")
-		src = strings.TrimSpace(strings.TrimPrefix(src, "?"))
-		t, err := ec.formula(src)
-		if err != nil && optional {
+		t, err := ec.formula(c.Src)
+		if err != nil && c.Optional {
 			continue // optional clause not evaluable at this site: no fact gained
 		}
 		if err != nil {
